@@ -44,6 +44,8 @@ def universe(seed, quick, nsim=None):
 def freeze(sch):
     if isinstance(sch, str):
         return 'RAW:' + sch
+    if isinstance(sch, tuple):
+        return 'DDL:' + sch[1]
     return json.dumps(SC.model_state(sch), sort_keys=True)
 
 
@@ -346,7 +348,14 @@ def check_describe(sch):
     from edb.schema import ddl as s_ddl
     import immutables
     try:
-        ctx, real = build(SC.render_sdl(sch))
+        if isinstance(sch, tuple) and sch[0] == 'DDL':
+            # built by plain DDL, so that the original does not depend on the
+            # SDL loader whose output order is under test
+            ctx = SC.new_ctx()
+            SC.compile_stmt(ctx, sch[1])
+            real = SC.user_schema(ctx)
+        else:
+            ctx, real = build(SC.render_sdl(sch))
     except st['errors'].EdgeDBError as e:
         return None, f'schema not accepted: {str(e)[:100]}'
     want = SC.proj(real)
@@ -436,6 +445,7 @@ def run_c03(tier, seed, rep):
         distinct_states(by2, rnd, 40 if quick else 2500)
     import schema_features as SF
     schemas += SF.all_schemas()
+    schemas += [('DDL', h) for h in SF.DDL_HISTORIES]
     n = 0
     incon = []
     with mp.Pool(lib.NCPU) as pool:
